@@ -448,20 +448,28 @@ class Ovld:
         return self.dispatch.__signature__
 
     def lock(self):
+        """Lock this ovld and what it derives from.
+
+        Returns the ovlds that were not locked before.
+        """
+        newly = [] if self._locked else [self]
         self._locked = True
         for mixin in self.mixins:
-            mixin.lock()
+            newly += mixin.lock()
+        return newly
 
     def _lock_parents(self):
         # Changes to a parent that does not link back to this ovld would not
         # be propagated, so such a parent, and everything it derives from,
         # must not change anymore. A linked parent stays modifiable, but the
         # same reasoning applies to its own parents.
+        newly = []
         for mixin in self.mixins:
             if self in mixin.children:
-                mixin._lock_parents()
+                newly += mixin._lock_parents()
             else:
-                mixin.lock()
+                newly += mixin.lock()
+        return newly
 
     def _attempt_modify(self):
         if self._locked:
@@ -521,10 +529,15 @@ class Ovld:
         dispatching over a partially filled table.
         """
         with self._build_lock:
+            self._newly_locked = []
             try:
                 self._compile()
             except BaseException:
                 self._compiled = False
+                # This ovld did not come into use: the parents it locked can
+                # still be modified (to remove the offending method)
+                for ov in self._newly_locked:
+                    ov._locked = False
                 dispatch = getattr(self, "dispatch", None)
                 if dispatch is not None:
                     dispatch.__code__ = dispatch.__bootstrap_code__
@@ -542,7 +555,7 @@ class Ovld:
         This will also lock this ovld's parent mixins to prevent their
         modification.
         """
-        self._lock_parents()
+        self._newly_locked = self._lock_parents()
         _verif.point("compile.locked", ov=self.id)
 
         if self.name is None:
